@@ -14,7 +14,8 @@ PROP = dict(
     level='proof',
     regen=['crctable', 'consts', 'integconsts', 'decapiconsts', 'decapistdfac'],
     extra=_extra,
-    theorems=['Fit.C07.C07_decode_from_clean', 'Fit.C07.C07_boundary_clean', 'Fit.C07.C07_history_indep_partial',
+    theorems=['Fit.C07.C07_decode_from_clean', 'Fit.C07.C07_boundary_clean', 'Fit.C07.C07_reset_is_new', 'Fit.C07.C07_integrity_check_is_new',
+              'Fit.C07.C07_history_indep_partial',
               'Fit.C07.C07_rejected_everywhere_partial', 'Fit.C07.C07_full_fails', 'Fit.C07.C07_witness_peek_past'],
     families=[dict(name='dechist', prop=True), dict(name='decapi')],
     trusted_base=STD_TRUST + [
@@ -32,6 +33,6 @@ PROP = dict(
 
 TEXT = dict(
     technique='Lean 4 proof: simulation between the decoder object (state machine) and a specification that only uses new decoders, by phases (start / header read / file id peeked / peek failed / dead / blind); loop-splitting lemma (the record loop of Decode continues the loop of PeekFileId), fuel irrelevance, header decode independent of the checksum option, Discard ends at the end of the data window wherever inside the window it starts; differential correspondence and the specification as oracle on the real decoder',
-    text='C07_history_indep_partial: for every byte stream (< 4 GiB), option set, acyclic factory and every history of Decode / DecodeWithContext (live or cancelled) / PeekFileHeader / PeekFileId / Discard / Next / CheckIntegrity+re-seek / Reset(new reader, new options), every result the decoder object returns — outcome class, FIT, header, file id, listener calls — equals what the specification computes with new decoders on the bytes of the current sequence; hypothesis: no PeekFileId reads past its data window (class of the open finding F09). C07_boundary_clean: every operation ending a sequence leaves per-sequence state and look-ups as new. C07_rejected_everywhere_partial: a sequence a new decoder rejects with e is rejected with e after every history. C07_full_fails / C07_witness_peek_past: the unrestricted statement is false on the pinned tree (F09). F08 (look-ups surviving Discard / Reset / CheckIntegrity after PeekFileId) and F10 (stale read-buffer bytes after a failing CheckIntegrity) were reported by this check on the unchanged tree, repaired in /repo (bbd9d2d, 318ff80) and are now part of the proved statement.',
+    text='C07_history_indep_partial: for every byte stream (< 4 GiB), option set, acyclic factory and every history of Decode / DecodeWithContext (live or cancelled) / PeekFileHeader / PeekFileId / Discard / Next / CheckIntegrity+re-seek / Reset(new reader, new options), every result the decoder object returns — outcome class, FIT, header, file id, listener calls — equals what the specification computes with new decoders on the bytes of the current sequence; hypothesis: no PeekFileId reads past its data window (class of the open finding F09). C07_boundary_clean: every operation ending a sequence leaves per-sequence state and look-ups as new. C07_reset_is_new (no hypothesis at all): after Reset(r, opts) the whole state of the object equals decoder.New(r, opts); C07_integrity_check_is_new: after CheckIntegrity + re-seek a live decoder equals a new one on the same stream, whatever the check found. C07_rejected_everywhere_partial: a sequence a new decoder rejects with e is rejected with e after every history. C07_full_fails / C07_witness_peek_past: the unrestricted statement is false on the pinned tree (F09). F08 (look-ups surviving Discard / Reset / CheckIntegrity after PeekFileId) and F10 (stale read-buffer bytes after a failing CheckIntegrity) were reported by this check on the unchanged tree, repaired in /repo (bbd9d2d, 318ff80) and are now part of the proved statement.',
     note='Partial by exactly one class (F09, open: needs an API decision on PeekFileId of a sequence without file_id). Proved about the model; tie = differential testing of whole histories (6-8k histories quick, 160k thorough, plus the decapi family).',
 )
